@@ -6,6 +6,7 @@ fshift is linear in the signal for a fixed shift: the impulse basis (identity ma
 import numpy as np
 
 from mc.engine import Clause, Res
+from mc import layouts as _layouts
 
 from ibldsp import fourier, utils, waveforms
 from neurowaveforms.model import generate_waveform
@@ -311,5 +312,6 @@ CHECK = {
         Clause("delay", "wave_shift_corrmax recovers the applied shift and re-aligns", cases=delay_cases, check=delay_check),
         Clause("stack", "shift_waveform re-aligns a cluster of shifted copies", cases=stack_cases, check=stack_check),
         Clause("parabolic", "parabolic_max on every 3-point pattern position incl. edges, 1-D and 2-D", cases=para_cases, check=para_check),
+        _layouts.make_clause(__import__("checks._layout_specs", fromlist=["x"]).c07()),
     ],
 }
